@@ -286,7 +286,7 @@ def selftest(ctx) -> None:
 
 
 def run(ctx) -> None:
-    parallel(ctx, _shard, [(ctx.n(80, 4000),)] * 16)
+    parallel(ctx, _shard, [(ctx.n(120, 4000),)] * 16)
     ctx.exhaustive = False
 
 
